@@ -118,11 +118,21 @@ TrUpReq(e) ==
   IF e.err # 0 \/ e.start # 3 \/ ~Guard(e) THEN Stop("DRIFT", e, "script", "upload request refused, not opened with next-action, or not enabled", [ph |-> ph])
   ELSE Apply(e) /\ UNCHANGED <<skip, seen>>
 
+Pending == <<"pending", "folder-action">>     \* marker in `seen`: a soft mismatch whose verdict waits for the outcome
+
 TrUpItem(e) ==
-  IF ~UpItemOK(e) THEN Stop("DRIFT", e, "script", "item not enabled in the model", [ph |-> ph, left |-> left, at |-> At(e.path)])
-  ELSE /\ Apply(e)
-       /\ IF e.act # out'.act
-            THEN /\ Rep(IF e.kind = "dir" THEN "DRIFT" ELSE "VIOL", e,
+  LET u == [e EXCEPT !.cut = IF e.unsent THEN -1 ELSE e.cut] IN
+  IF ~UpItemOK(u) THEN Stop("DRIFT", e, "script", "item not enabled in the model", [ph |-> ph, left |-> left, at |-> At(e.path)])
+  ELSE /\ Apply(u)
+       /\ IF e.unsent
+            \* the server had stopped answering before the client could stream this item: the model still takes it
+            \* (it belongs to the tree the client streams); the outcome is judged at the end
+            THEN skip' = skip /\ seen' = seen \cup {Pending}
+          ELSE IF e.act # out'.act /\ e.kind = "dir"
+            \* the answer to a folder item is not what the statement speaks about - the resulting tree is: go on
+            THEN skip' = skip /\ seen' = seen \cup {Pending}
+          ELSE IF e.act # out'.act
+            THEN /\ Rep("VIOL", e,
                         IF out'.act = 3 THEN "SkipComplete" ELSE IF out'.act = 2 THEN "ResumePartial" ELSE "UploadRecreates",
                         "server-action", [expected |-> out'])
                  /\ skip' = e.run /\ seen' = seen
@@ -134,36 +144,44 @@ TrUpItem(e) ==
                  /\ skip' = e.run /\ seen' = seen
           ELSE UNCHANGED <<skip, seen>>
 
+Early(e) == e.status \in {"broken:finished", "broken:waiting"}   \* the server stopped answering before the client was done
+
 TrUpEnd(e) ==
-  IF e.status \notin {"done", "expects-more"} THEN Stop("DRIFT", e, "harness", "upload dialogue did not complete: " \o e.status, [ph |-> ph, left |-> left])
-  ELSE IF ~UpEndOK(e) THEN Stop("DRIFT", e, "script", "upload end not enabled", [ph |-> ph, left |-> left])
+  IF e.status \notin {"done", "expects-more", "broken:finished", "broken:waiting"}
+    THEN Stop("DRIFT", e, "harness", "upload dialogue did not complete: " \o e.status, [ph |-> ph, left |-> left])
+  ELSE IF ph \notin {"up", "cut"} \/ (~Early(e) /\ ~UpEndOK(e)) THEN Stop("DRIFT", e, "script", "upload end not enabled", [ph |-> ph, left |-> left])
   ELSE LET resumed == out.op = "upitem" /\ out.act = 2      \* the last item was a resumed file
            obs == {NodeOf(r) : r \in ToSet(e.snap)}
            badBytes == {NodeOf(r) : r \in {x \in ToSet(e.snap) : ~x.pfx}}
            finO == {n \in obs : ~n.partial}
            parO == obs \ finO
-       IN /\ Apply(e)
+           wasCut == ph = "cut"
+           pref == (IF wasCut THEN "cut/" ELSE "") \o (IF Early(e) THEN "ended-early/" ELSE "")
+       IN /\ ph' = "idle"
+          /\ out' = [op |-> "upend", cut |-> wasCut]
+          /\ UNCHANGED <<disk, todo, left, count, sent, pre, streamed>>
           /\ skip' = skip
           /\ LET finM == {n \in disk : ~n.partial}
                  parM == disk \ finM
                  published == {n \in finO \ finM : \E m \in parM : m.path = n.path}
              IN IF ~e.exists
-                  THEN Note("VIOL", e, "UploadRecreates", "target-folder-missing", [expected |-> disk])
+                  THEN Note("VIOL", e, "UploadRecreates", pref \o "target-folder-missing", [expected |-> disk])
                 ELSE IF finO # finM \/ (badBytes \cap finO) # {}
-                  THEN Note("VIOL", e, IF out'.cut /\ resumed THEN "ResumePartial" ELSE "UploadRecreates",
-                            (IF out'.cut THEN "cut/" ELSE "")
+                  THEN Note("VIOL", e, IF wasCut /\ resumed THEN "ResumePartial" ELSE "UploadRecreates",
+                            pref
                             \o (IF published # {} THEN "partial-published"
                                 ELSE IF (badBytes \cap finO) # {} THEN "wrong-bytes"
                                 ELSE IF finO \ finM # {} /\ finM \ finO # {} THEN "differs"
                                 ELSE IF finM \ finO # {} THEN "missing-entries" ELSE "extra-entries"),
                             [expected |-> disk, extra |-> finO \ finM, missing |-> finM \ finO, wrongBytes |-> badBytes])
                 ELSE IF parO # parM \/ (badBytes \cap parO) # {}
-                  THEN Note(IF out'.cut THEN "DRIFT" ELSE "VIOL", e, "UploadRecreates", "incomplete-files-differ",
+                  THEN Note(IF wasCut THEN "DRIFT" ELSE "VIOL", e, "UploadRecreates", pref \o "incomplete-files-differ",
                             [expected |-> parM, got |-> parO, wrongBytes |-> badBytes])
-                \* the tree is right, but the dialogue was not: the server still waits for items after the announced
-                \* count, or sent more than its answers (the statement speaks about the tree only)
-                ELSE IF e.status = "expects-more" \/ (~out'.cut /\ e.tail # 0)
-                  THEN Note("DRIFT", e, "protocol", "server expects more items or sent surplus bytes", [status |-> e.status, tail |-> e.tail])
+                \* the tree is right, but the dialogue was not: a folder item answered differently, the server ended
+                \* early or still waits for items after the announced count, or sent more than its answers (the
+                \* statement speaks about the tree only)
+                ELSE IF Pending \in seen \/ e.status # "done" \/ (~wasCut /\ e.tail # 0)
+                  THEN Note("DRIFT", e, "protocol", "tree right, dialogue differs (folder action / early end / surplus bytes)", [status |-> e.status, tail |-> e.tail])
                 ELSE seen' = seen
 
 StepEv ==
